@@ -1,5 +1,5 @@
 import Hive.Proofs.KVConcPosStep
-import Hive.Proofs.KVLin
+import Hive.Proofs.KVLinComplete
 /-!
 # C05: the history of every trace of the protocol model is linearizable w.r.t. the full C04 contract
 (including `Close`), and the checker's verified validator accepts it
@@ -12,24 +12,6 @@ namespace Hive.KV.Conc
 open Hive.Conc Hive.KV.Lin
 
 /-! ## completeness of the validator's Boolean checks -/
-
-theorem nodupB_complete : ∀ (w : List Nat), w.Nodup → nodupB w = true
-  | [], _ => rfl
-  | x :: xs, h => by
-    rw [List.nodup_cons] at h
-    simp [nodupB, h.1, nodupB_complete xs h.2]
-
-theorem realTimeFrom_complete : ∀ (l : List HOp) (b : Nat), (∀ o ∈ l, b ≤ o.ret) →
-    l.Pairwise (fun a c => a.inv < c.ret) → realTimeFrom b l = true
-  | [], _, _, _ => rfl
-  | o :: rest, b, hb, hp => by
-    rw [List.pairwise_cons] at hp
-    simp only [realTimeFrom, Bool.and_eq_true, decide_eq_true_eq]
-    refine ⟨hb o (List.mem_cons_self ..), realTimeFrom_complete rest _ ?_ hp.2⟩
-    intro x hx
-    have h1 := hb x (List.mem_cons_of_mem _ hx)
-    have h2 := hp.1 x hx
-    omega
 
 def endSeq (st : SeqSt) (l : List HOp) : SeqSt := l.foldl (fun s o => (hstep s o.kind).1) st
 
@@ -269,50 +251,54 @@ theorem witness_map (H : List HOp) :
       (List.range H.length).filter ((fun o : HOp => o.late) ∘ pick H.toArray) := rfl
   rw [e1, e2, ← List.filter_map, ← List.filter_map, map_pick_range]
 
-theorem witness_perm (H : List HOp) :
-    (witness H).length = H.length ∧ (∀ i ∈ witness H, i < H.length) ∧ (witness H).Nodup := by
+theorem witness_perm (H : List HOp) : (witness H).Perm (List.range H.length) := by
   unfold witness
-  refine ⟨?_, ?_, ?_⟩
-  · rw [List.length_append]
-    have := length_filter_add (fun k => (pick H.toArray k).late) (List.range H.length)
-    simpa using this
-  · intro i hi
-    rcases List.mem_append.mp hi with hi | hi <;>
-    · have := (List.mem_filter.mp hi).1
-      simpa using this
-  · rw [List.nodup_append]
-    refine ⟨List.Pairwise.filter _ List.nodup_range, List.Pairwise.filter _ List.nodup_range, ?_⟩
-    intro a ha b hb hab
-    subst hab
-    have h1 := (List.mem_filter.mp ha).2
-    have h2 := (List.mem_filter.mp hb).2
-    simp only [Bool.not_eq_true'] at h1
-    rw [h1] at h2; cases h2
+  have := List.filter_append_perm (fun k => !(pick H.toArray k).late) (List.range H.length)
+  simpa using this
 
 /-- **The validator accepts the history of every reachable trace.** -/
 theorem model_history_validates {scripts : List (List COp)} {c : Cfg Shared Thread}
     (hr : Reach sys (initCfg scripts) c) :
     validate (histOf c.1.tr).toArray (witness (histOf c.1.tr)) = true := by
   obtain ⟨_, hs, _, hh⟩ := hinv_reach hr
-  obtain ⟨hlen, hlt, hnd⟩ := witness_perm (histOf c.1.tr)
   have hearly := seq_early c.1.tr c.1.tr seqInit hs.ok
   have hlate := seq_late c.1.tr c.1.tr seqInit hs.ok
-  simp only [validate, Bool.and_eq_true, beq_iff_eq, List.all_eq_true, decide_eq_true_eq, List.size_toArray]
-  refine ⟨⟨⟨⟨hlen, hlt⟩, nodupB_complete _ hnd⟩, ?_⟩, ?_⟩
-  · rw [witness_map]
-    apply realTimeFrom_complete
-    · intro o _; exact Nat.zero_le _
-    · rw [List.pairwise_append]
-      refine ⟨List.Pairwise.filter _ (hist_rt1 hh), List.Pairwise.filter _ (hist_rt1 hh), ?_⟩
-      intro a ha b hb
-      have ha' := List.mem_filter.mp ha
-      have hb' := List.mem_filter.mp hb
-      exact hist_rt2 hh hs.ok a b ha'.1 (by simpa using ha'.2) hb'.1 hb'.2
+  rw [validate_iff]
+  refine ⟨by simpa using witness_perm (histOf c.1.tr), ?_, ?_⟩
+  · rw [witness_map, List.pairwise_append]
+    refine ⟨List.Pairwise.filter _ (hist_rt1 hh), List.Pairwise.filter _ (hist_rt1 hh), ?_⟩
+    intro a ha b hb
+    have ha' := List.mem_filter.mp ha
+    have hb' := List.mem_filter.mp hb
+    exact hist_rt2 hh hs.ok a b ha'.1 (by simpa using ha'.2) hb'.1 hb'.2
   · rw [witness_map, runSeq_append]
     simp only [Bool.and_eq_true]
     refine ⟨hearly.1, ?_⟩
     have : endSeq seqInit ((histOf c.1.tr).filter (fun o => !o.late)) = ⟨(replay c.1.tr).m, false⟩ := hearly.2
     rw [this]
     exact hlate (replay c.1.tr).m
+
+/-- Every recorded operation of a reachable trace was invoked before it returned. -/
+theorem model_history_wellStamped {scripts : List (List COp)} {c : Cfg Shared Thread}
+    (hr : Reach sys (initCfg scripts) c) : wellStamped (histOf c.1.tr).toArray = true := by
+  obtain ⟨_, _, _, hh⟩ := hinv_reach hr
+  simp only [wellStamped, List.all_toArray, List.all_eq_true, decide_eq_true_eq]
+  intro o ho
+  obtain ⟨p, t, i, a, out, hp, rfl⟩ := mem_histOf ho
+  have h1 := hh.g1 p t i a out hp
+  have h2 := hh.g2 p t i a out hp
+  simp only at h1 h2 ⊢
+  omega
+
+/-- **The checker accepts the history of every reachable trace of the protocol model** (unless its
+search exhausts the node budget, which it reports as such). -/
+theorem model_history_accepted {scripts : List (List COp)} {c : Cfg Shared Thread}
+    (hr : Reach sys (initCfg scripts) c) (budget : Option Nat) :
+    decideHist (histOf c.1.tr) budget = .accept ∨ decideHist (histOf c.1.tr) budget = .reject "budget-exhausted" :=
+  decideHist_complete _ budget (model_history_wellStamped hr) (validate_sound _ _ (model_history_validates hr))
+
+theorem model_history_accepted_unbounded {scripts : List (List COp)} {c : Cfg Shared Thread}
+    (hr : Reach sys (initCfg scripts) c) : decideHist (histOf c.1.tr) none = .accept :=
+  decideHist_complete_unbounded _ (model_history_wellStamped hr) (validate_sound _ _ (model_history_validates hr))
 
 end Hive.KV.Conc
